@@ -226,3 +226,143 @@ def garbage_line(rng, version):
         c = 255 if t == 3 else rng.choice([0, 1, 2])
         return f"{rng.choice(NODES)};{c};{t};0;{s};{p}"
     return "".join(chr(rng.choice([rng.randint(32, 126), rng.randint(0, 0x2FF), 59, 59, 48, 49, 50])) for _ in range(rng.randint(0, 30))).replace("\n", " ")
+
+
+# ---------------------------------------------------------------------------
+# histories
+def wake_line(rng, version, n):
+    if version in ("2.0", "2.1"):
+        return f"{n};255;3;0;22;{rng.randint(0, 10**6)}"
+    return f"{n};255;3;0;32;{rng.choice([500, 100, 0])}"
+
+
+def set_value_for(rng, version, vt, ok=True, unicode_ok=True, semicolon=False):
+    rule = spec.rule_for(version, 1, vt)
+    if rule is None:
+        return rng.choice(["1", "x"])
+    if rule == "ANY" and unicode_ok and rng.random() < 0.3:
+        p = payload(rng)[0]
+        if semicolon and rng.random() < 0.4:
+            p = p[: len(p) // 2] + rng.choice([";", ";;", "\n", "\r\n", "a;b;c;d;e;f"]) + p[len(p) // 2:]
+        return p
+    return rule_payload(rng, rule, ok)
+
+
+def ctl_set(rng, version, nodes=(1, 2, 3), children=(0, 1, 2), semicolon=False):
+    vt = rng.choice([s for s in SET_TYPES if s <= spec.MAX_SET[version] + 1] + [spec.MAX_SET[version] + 1])
+    val = set_value_for(rng, version, vt, ok=True if rng.random() < 0.8 else None, semicolon=semicolon)
+    k = rng.random()
+    vtx = vt if k < 0.7 else str(vt) if k < 0.9 else rng.choice(["x", None, "1.5", ""])
+    if rng.random() < 0.15:
+        val = rng.choice([1, 0, 50, 3.5, True, 100, -1]) if rng.random() < 0.7 else val
+    kw = {"ack": rng.choice([0, 1])} if rng.random() < 0.2 else {}
+    return ["set", rng.choice(nodes), rng.choice(children), vtx, val, kw]
+
+
+def fw_image(rng, small=True):
+    n = rng.choice([1, 15, 16, 17, 100, 127, 128, 129, 200, 256]) if small else rng.randint(1, 4000)
+    return bytes(rng.getrandbits(8) for _ in range(n)).hex()
+
+
+def sk_sleep(rng, version):
+    """Directed skeleton for smart sleep (>= 2.0): held items of several kinds, desired values, late child."""
+    n = rng.choice([1, 2, 3])
+    other = rng.choice([x for x in (1, 2, 3) if x != n])
+    c1, c2 = rng.sample([0, 1, 2], 2)
+    vt1 = rng.choice([2, 3, 23, 24, 47])
+    vt2 = rng.choice([0, 24, 16])
+    v1a, v1b, v1c = (set_value_for(rng, version, vt1, unicode_ok=False) for _ in range(3))
+    pv = rng.choice([version, "1.4", "1.5", "2.0", None])
+    st = []
+    if pv is None:
+        st.append(["in", "255;255;3;0;3;"])   # id-assigned node, never presented
+        n = None
+    else:
+        st.append(["in", f"{n};255;0;0;17;{pv}"])
+    st.append(["in", f"{other};255;0;0;17;{version}"])
+    st.append(["in", f"{other};1;0;0;6;other"])
+    return n, other, c1, c2, vt1, vt2, (v1a, v1b, v1c), st
+
+
+def history(rng, version, length, profile):
+    """profile: dict(garbage, ctl, semicolon, sleep, ota, idreq, fwrange)."""
+    two = version >= "2.0"
+    st = []
+    nodes = [1, 2, 3]
+    if profile.get("sleep") and two and rng.random() < 0.8:
+        n = rng.choice(nodes)
+        other = rng.choice([x for x in nodes if x != n])
+        c1, c2 = rng.sample([0, 1, 2], 2)
+        vt1 = rng.choice([2, 3, 23, 24, 47, 22])
+        vt2 = rng.choice([0, 24, 16])
+        vals = [set_value_for(rng, version, vt1, unicode_ok=False) for _ in range(3)]
+        pv = rng.choice([version, "1.4", "1.5", "2.0", "2.2"])
+        ptype = {2: 3, 3: 4, 23: 16, 24: 23, 47: 36, 22: 29}[vt1]
+        st += [["in", f"{n};255;0;0;17;{pv}"], ["in", f"{other};255;0;0;17;{version}"], ["in", f"{other};1;0;0;6;o"],
+               ["in", f"{other};1;1;0;0;20.5"],
+               ["in", f"{n};{c1};0;0;{ptype};first"], ["in", f"{n};{c1};1;0;{vt1};{vals[0]}"],
+               ["in", wake_line(rng, version, n)],
+               ["set", n, c1, rng.choice([vt1, str(vt1)]), vals[1], {}],
+               ["in", f"{n};255;3;0;6;0"], ["in", f"{n};255;3;0;1;"],
+               ["in", f"{other};255;3;0;6;0"], ["in", f"{other};1;2;0;0;"],
+               ["in", f"{n};{c1};2;0;{vt1};"],
+               ["in", f"{n};{c2};0;0;23;late"], ["in", f"{n};{c2};1;0;{vt2};{set_value_for(rng, version, vt2, unicode_ok=False)}"],
+               ["in", f"{n};{c2};2;0;{vt2};"],
+               ["set", n, c2, vt2, set_value_for(rng, version, vt2, unicode_ok=False), {}],
+               ["in", f"{n};9;1;0;0;1"],
+               ["in", wake_line(rng, version, n)],
+               ["in", wake_line(rng, version, n)],
+               ["set", n, c2, vt2, set_value_for(rng, version, vt2, unicode_ok=False), {}],
+               ["in", f"{n};{c1};1;0;{vt1};{vals[2]}"],
+               ["in", wake_line(rng, version, n)]]
+        # randomly drop a few skeleton steps so the shapes vary
+        st = [s for s in st if rng.random() < 0.9]
+    if profile.get("ota") and rng.random() < 0.8:
+        n = rng.choice(nodes)
+        m = rng.choice([x for x in nodes if x != n])
+        ft, fv = rng.choice([0, 1, 255, 256, 65535]), rng.choice([0, 1, 2, 65535])
+        img = fw_image(rng)
+        nblocks = (len(bytes.fromhex(img)) + 127) // 128 * 8
+        cfg = f"{ft:04x}"[2:] + f"{ft:04x}"[:2]
+        def w(x):
+            return f"{x & 0xff:02X}{(x >> 8) & 0xff:02X}"
+        cfgp = w(ft) + w(fv) + w(5) + w(0x1234) + w(0x0101)
+        def blk(i, t=ft, v=fv):
+            return w(t) + w(v) + w(i)
+        st += [["in", f"{n};255;0;0;17;{version}"], ["in", f"{n};1;0;0;3;light"], ["in", f"{m};255;0;0;17;{version}"],
+               ["in", f"{n};255;4;0;0;{cfgp}"],
+               ["fw", rng.choice([n, [n], [n, m], [n, 77]]), ft, fv, img],
+               ["in", f"{n};1;1;0;2;1"], ["in", f"{n};255;4;0;2;{blk(0)}"],
+               ["in", f"{n};255;0;0;17;{version}"], ["in", f"{n};1;1;0;2;0"],
+               ["in", f"{n};255;4;0;0;{cfgp}"], ["in", f"{n};255;4;0;0;{hex_payload(rng, 'cfg')}"], ["in", f"{n};255;4;0;0;{cfgp}"],
+               ["in", f"{n};255;4;0;2;{blk(rng.randrange(nblocks))}"], ["in", f"{n};255;4;0;2;{hex_payload(rng, 'req')}"],
+               ["in", f"{n};255;4;0;2;{blk(nblocks - 1)}"], ["in", f"{n};255;4;0;2;{blk(nblocks + rng.choice([0, 1, 7, 8, 100]))}"],
+               ["in", f"{n};255;4;0;2;{blk(0, ft ^ 1)}"],
+               ["in", f"{n};255;4;0;0;{cfgp}"],
+               ["in", f"{m};255;4;0;0;{cfgp}"], ["in", f"{m};255;4;0;2;{blk(0)}"],
+               ["fw", n, ft, fv, None], ["in", f"{n};255;4;0;0;{cfgp}"], ["in", f"{n};255;4;0;2;{blk(1)}"]]
+        st = [s for s in st if rng.random() < 0.9]
+    while len(st) < length:
+        k = rng.random()
+        if k < profile.get("garbage", 0.15):
+            st.append(["in", garbage_line(rng, version)])
+        elif k < profile.get("garbage", 0.15) + profile.get("ctl", 0.12):
+            m = rng.random()
+            if m < 0.7:
+                st.append(ctl_set(rng, version, semicolon=profile.get("semicolon", False)))
+            elif m < 0.85 and profile.get("ota"):
+                ft, fv = rng.choice([0, 1, 2]), rng.choice([0, 1])
+                if profile.get("fwrange") and rng.random() < 0.3:
+                    ft = rng.choice([-1, 65536, 70000, 2**32, "x", "7"])
+                st.append(["fw", rng.choice([1, 2, [1, 2], 9, [3, 9]]), ft, fv, fw_image(rng) if rng.random() < 0.6 else None])
+            elif m < 0.92:
+                st.append(["metric", rng.random() < 0.5])
+            elif profile.get("cbraise"):
+                st.append(["cbraise", rng.random() < 0.5])
+        elif k < 0.9 or not two:
+            st.append(["in", valid_line(rng, version, unicode_frac=profile.get("unicode", 0.15))])
+        else:
+            st.append(["in", wake_line(rng, version, rng.choice(nodes))])
+        if profile.get("lag") and rng.random() < 0.08:
+            st.append(["lag", rng.randint(1, 4)])
+    return st
